@@ -141,6 +141,26 @@ def compare(ctx, case, g, model: Model, where: str) -> bool:
     sub = [m for m in range(size) if rng.random() < 0.5]
     cs = [Coalition(m) for m in sub]
     if sub:
+        # the protocol says Iterable[Coalition]: one-shot iterators must behave like lists
+        it = rng.choice([iter, lambda x: (c for c in x), lambda x: map(lambda c: c, x), lambda x: filter(lambda c: True, x)])
+        try:
+            ctx.count("one_shot_iterable_calls")
+            if not np.array_equal(np.array(g.are_values_known(it(cs))), kn[sub]) or \
+                    not np.array_equal(np.array(g.get_lower_bounds(it(cs))), lo[sub], equal_nan=True) or \
+                    not np.array_equal(np.array(g.get_known_values(it(cs))), kv[sub], equal_nan=True):
+                bad("subset-getter-wrong", "a getter given a one-shot iterable differs from the same getter given a list")
+            allk_it = all(m in model.known for m in sub)
+            try:
+                r = np.array(g.get_values(it(cs)))
+                if not allk_it:
+                    bad("unknown-value-returned", f"get_values(<iterator over {sub}>) returned {r.tolist()} although some requested coalition is unknown")
+                elif not all(same(a, model.known[m]) for a, m in zip(r, sub)):
+                    bad("known-coalition-not-its-value", f"get_values(<iterator over {sub}>) = {r.tolist()}")
+            except ValueError:
+                if allk_it:
+                    bad("known-coalition-not-its-value", f"get_values(<iterator over {sub}>) raised although all are known")
+        except (TypeError, IndexError) as exc:
+            bad("subset-getter-wrong", f"a getter rejected a one-shot iterable: {type(exc).__name__}: {exc}")
         if not np.array_equal(np.array(g.are_values_known(cs)), kn[sub]):
             bad("subset-getter-wrong", "are_values_known(subset) differs from the full vector")
         if not np.array_equal(np.array(g.get_lower_bounds(cs)), lo[sub], equal_nan=True) or \
